@@ -909,6 +909,7 @@ func isErrID(err error) bool { return err == dns.ErrId }
 
 //go:norace
 func (x *run) fin(b *bool) {
+	x.k.Announce()
 	x.k.Lock()
 	*b = true
 	x.k.Unlock()
